@@ -194,7 +194,8 @@ Proof.
   assert (Hh : t_holds (o_tract o) (lock_mode (o_kind o)) {| t_op := o; t_pc := PUnlock; t_loc := l |} = true).
   { rewrite t_holds_mk, Z.eqb_refl. destruct (o_kind o); cbn; congruence. }
   pose proof (filter_one _ _ _ _ Ni Hh) as H1. fold (cnt (o_tract o) (lock_mode (o_kind o)) ths) in H1.
-  unfold unlock, busy_ok in *. destruct (get (o_tract o) (g_busy g)) as [st|]; destruct (lock_mode (o_kind o)); dmh; try congruence; lia.
+  revert H1. unfold unlock, busy_ok, cnt in *.
+  destruct (get (o_tract o) (g_busy g)) as [st|]; destruct (lock_mode (o_kind o)); intro H1; dmh; try congruence; exfalso; lia.
 Qed.
 
 Definition no_crash (s : sys) : Prop := forall i t, nth_error (snd s) i = Some t -> t_pc t <> PCrash.
